@@ -1,5 +1,6 @@
 import Driver.Util
 import Driver.C03
+import Driver.C13
 
 /-- one line in, one line out; the handler may carry state -/
 structure Handler where
@@ -10,7 +11,8 @@ structure Handler where
 def stateless (f : String → String) : Handler := ⟨Unit, (), fun _ l => ((), f l)⟩
 
 def handlers : List (String × Handler) := [
-  ("c03", stateless Driver.C03.handle)
+  ("c03", stateless Driver.C03.handle),
+  ("c13", stateless Driver.C13.handle)
 ]
 
 partial def loop (h : IO.FS.Stream) (out : IO.FS.Stream) (H : Handler) (s : H.σ) : IO Unit := do
